@@ -140,3 +140,6 @@ func MonitorIDs() []string {
 	sort.Strings(ids)
 	return ids
 }
+
+// RaceEnabled is set by the binary's main package when built with -race.
+var RaceEnabled bool
